@@ -631,7 +631,44 @@ def constructor_catalogue():
     items.append(("DailyModel(settings={'developer_mode': True, 'cvrmse_threshold': 2})", lambda: DailyModel(settings={"developer_mode": True, "silent_developer_mode": True, "cvrmse_threshold": 2}), "accept"))
     items.append(("BillingModel(settings={'segment_minimum_count': 5})", lambda: BillingModel(settings={"segment_minimum_count": 5}), "reject"))
     items.append(("DailyModel(model='legacy', settings={'allow_smooth_model': True})", lambda: DailyModel(model="legacy", settings={"allow_smooth_model": True}), "reject"))
+    # the update helper validates like a constructor: developer-only fields stay locked, values are checked
+    for key, cls in DAILY_CLASSES.items():
+        if cls.__name__ == "BillingSettings":
+            continue  # the helper rebuilds billing settings as legacy settings (their differing constants then trip the lock)
+        base = defaults_of(cls)
+        for k, a in (("alpha_selection", 1.0), ("cvrmse_threshold", 2.0), ("segment_minimum_count", base["segment_minimum_count"] + 1), ("allow_smooth_model", not base["allow_smooth_model"])):
+            items.append((f"update_daily_settings({cls.__name__}(), {{{k!r}: {a!r}}})", (lambda c, k, a: lambda: st.update_daily_settings(c(), {k: a}))(cls, k, a), "reject"))
+            items.append((f"update_daily_settings({cls.__name__}(), {{{k.upper()!r}: {a!r}, 'DEVELOPER_MODE': True}})",
+                          (lambda c, k, a: lambda: _expect_value(st.update_daily_settings(c(), {k.upper(): a, "DEVELOPER_MODE": True, "SILENT_DEVELOPER_MODE": True}), k, a))(cls, k, a), "accept"))
+        items.append((f"update_daily_settings({cls.__name__}(), {{'split_selection': {{'penalty_power': 3}}}})", (lambda c: lambda: st.update_daily_settings(c(), {"split_selection": {"penalty_power": 3}}))(cls), "reject"))
+        items.append((f"update_daily_settings({cls.__name__}(), {{'uncertainty_alpha': 0.2}})", (lambda c: lambda: _expect_value(st.update_daily_settings(c(), {"uncertainty_alpha": 0.2}), "uncertainty_alpha", 0.2))(cls), "accept"))
+        items.append((f"update_daily_settings({cls.__name__}(), developer mode, cvrmse_threshold=-1)", (lambda c: lambda: st.update_daily_settings(c(), {"developer_mode": True, "silent_developer_mode": True, "cvrmse_threshold": -1}))(cls), "reject"))
+        items.append((f"update_daily_settings({cls.__name__}(), developer mode, season january=monsoon)", (lambda c: lambda: st.update_daily_settings(c(), {"developer_mode": True, "silent_developer_mode": True, "season": {"january": "monsoon"}}))(cls), "reject"))
+    # a model handed a ready-made settings OBJECT (own or another family's class): refused, or the model ends up with exactly
+    # the approved constants of its own family
+    fam = {"DailyModel()": (lambda s: DailyModel(settings=s), DAILY_CLASSES["daily"]), "DailyModel(model='legacy')": (lambda s: DailyModel(model="legacy", settings=s), DAILY_CLASSES["legacy"]),
+           "BillingModel()": (lambda s: BillingModel(settings=s), type(BillingModel().settings))}
+    for mname, (mk_model, own_cls) in fam.items():
+        for scls in DAILY_CLASSES.values():
+            items.append((f"{mname} with settings={scls.__name__}() object", (lambda mk, sc, oc: lambda: _expect_approved(mk(sc()), oc))(mk_model, scls, own_cls), "accept"))
     return items
+
+
+def _expect_value(obj, k, a):
+    if not isinstance(obj, st.DailySettings) or getattr(obj, k) != a or not isinstance(obj.split_selection, st.BaseSettings):
+        raise AssertionError(f"update did not yield validated settings carrying {k}={a!r}")
+    return obj
+
+
+class _Refused(Exception):
+    pass
+
+
+def _expect_approved(model, own_cls):
+    """reached only if the constructor accepted the object: then the model must carry its family's approved constants"""
+    if model.settings.model_dump() != own_cls().model_dump():
+        raise AssertionError(f"model built from a settings object carries non-approved constants without developer mode ({type(model.settings).__name__})")
+    return model
 
 
 def run_constructors(case):
@@ -661,8 +698,12 @@ def _try_ctor(fn, expect, desc):
         with contextlib.redirect_stdout(io.StringIO()):
             fn()
         got = "accept"
+    except AssertionError as ex:
+        return True, f"{desc}: {ex}"
     except Exception as ex:
         got = "reject"
+        if "settings=" in desc and "object" in desc:
+            got = "accept"  # a refusal is fine for a settings object
     return got != expect, f"{desc}: {got}, expected {expect}"
 
 
